@@ -23,9 +23,12 @@ EOF
 cp $WT/go.sum $DM/
 RACE=""; grep -qi 'race' $S/meta.json && RACE="-race"
 if [ -n "$FAST" ]; then CLEAN=skip; else (cd $DM && go mod tidy >/dev/null 2>&1; go test $RACE -count=1 ./... >$VV/demo_clean.log 2>&1); CLEAN=$?; fi
-if ! git -C $WT apply $S/patch.diff 2>$VV/apply.log; then
+PATCH=$S/patch.diff
+# a seed whose patch no longer applies to HEAD (a later fix: commit rewrote the same lines) carries a hand-rebased patch_head.diff
+[ -z "$REPO_REV" ] && [ -f $S/patch_head.diff ] && PATCH=$S/patch_head.diff
+if ! git -C $WT apply $PATCH 2>$VV/apply.log; then
   # the tree moved on since the seed was made (a later fix: commit touched the same file): try a 3-way merge
-  if ! git -C $WT apply --3way $S/patch.diff 2>>$VV/apply.log || grep -rq "^<<<<<<<" $(git -C $WT diff --name-only | sed "s|^|$WT/|") 2>/dev/null; then echo "$ID APPLY-FAILED $(head -1 $VV/apply.log)"; exit 1; fi
+  if ! git -C $WT apply --3way $PATCH 2>>$VV/apply.log || grep -rq "^<<<<<<<" $(git -C $WT diff --name-only | sed "s|^|$WT/|") 2>/dev/null; then echo "$ID APPLY-FAILED $(head -1 $VV/apply.log)"; exit 1; fi
 fi
 (cd $WT && go build ./... >$VV/build.log 2>&1) || { echo "$ID BUILD-FAILED"; exit 1; }
 if [ -n "$FAST" ]; then MUT=skip; BASE=skip; else (cd $DM && go test $RACE -count=1 ./... >$VV/demo_mut.log 2>&1); MUT=$?
